@@ -47,6 +47,9 @@ type interpreter struct {
 	stubs              map[string]*ssa.Function // function name -> harness stub
 	stubUse            map[string]int
 	spawned            []spawnRec
+	schedOn            bool // run recorded goroutines when the current one blocks (opt-in per harness)
+	schedFrom          int  // only goroutines spawned at or after this index
+	nextGo             int
 	trace              bool
 	callDepth          int
 }
@@ -182,7 +185,7 @@ func (fr *frame) runDefer(d *deferred) {
 // defer/recover machinery untouched.
 func isEnginePanic(r interface{}) bool {
 	switch r.(type) {
-	case engineError, pathAbort:
+	case engineError, pathAbort, goroutinePanic:
 		return true
 	case *runtime.TypeAssertionError:
 		return true
@@ -506,6 +509,9 @@ func visitInstr(fr *frame, instr ssa.Instruction) continuation {
 			}
 		}
 		if chosen < 0 && instr.Blocking {
+			if tryRunGoroutines() {
+				return visitInstr(fr, instr)
+			}
 			panic(pathAbort{"select would block", false})
 		}
 		recvOk := false
@@ -547,9 +553,14 @@ func symIndexAddr(cells []value, idx sv) value {
 	n := len(cells)
 	var inRange *Term
 	if signed {
-		inRange = mkAnd(mkCmp(opSle, mkBV(w, 0), idx.t), mkCmp(opSlt, idx.t, mkBV(w, uint64(n))))
-	} else {
+		inRange = mkCmp(opSle, mkBV(w, 0), idx.t)
+		if w == 64 || uint64(n) <= mask(w-1) { // otherwise every non-negative value of the type is in range
+			inRange = mkAnd(inRange, mkCmp(opSlt, idx.t, mkBV(w, uint64(n))))
+		}
+	} else if w == 64 || uint64(n) <= mask(w) {
 		inRange = mkCmp(opUlt, idx.t, mkBV(w, uint64(n)))
+	} else {
+		inRange = termTrue // the index type cannot express an out-of-range value
 	}
 	if !decide(inRange) {
 		panic(targetPanicStr(fmt.Sprintf("runtime error: index out of range [symbolic] with length %d", n)))
@@ -851,4 +862,48 @@ func doRecover(caller *frame) value {
 		}
 	}
 	return iface{}
+}
+
+// goroutinePanic: a panic left a goroutine other than the one running the harness entry; no
+// recover of the main goroutine can stop it, so it passes through the target's defer machinery.
+type goroutinePanic struct{ msg string }
+
+// tryRunGoroutines runs, to completion or until they block, the goroutines recorded since the
+// harness enabled scheduling. Reports whether any ran.
+func tryRunGoroutines() bool {
+	i := theInterp
+	if i == nil || !i.schedOn {
+		return false
+	}
+	ran := false
+	for i.nextGo < len(i.spawned) {
+		s := i.spawned[i.nextGo]
+		i.nextGo++
+		if i.nextGo-1 < i.schedFrom {
+			continue
+		}
+		ran = true
+		runGoroutine(i, s)
+	}
+	return ran
+}
+
+func runGoroutine(i *interpreter, s spawnRec) {
+	defer func() {
+		r := recover()
+		if r == nil {
+			return
+		}
+		if pa, ok := r.(pathAbort); ok && !pa.outsideModel && strings.Contains(pa.reason, "block") {
+			return // the goroutine is parked forever; others go on
+		}
+		if isEnginePanic(r) {
+			panic(r)
+		}
+		if tp, ok := normalizePanic(i, r).(targetPanic); ok {
+			panic(goroutinePanic{"panic on goroutine " + s.fn + ": " + panicString(tp)})
+		}
+		panic(r)
+	}()
+	call(i, nil, token.NoPos, s.fv, s.args)
 }
